@@ -7,6 +7,8 @@ TRUSTED = [
     "tied by fault-point enumeration on the real code (harness component faults), not step by step: real time and goroutine scheduling are outside the model",
     "Props/C11Dkg.lean: the same cancellation and panic-freedom facts on the data-level model Model/Dkg.lean (tables, validateCommitments, assembleThresholdPublicKey), which the lockstep component dkgstep compares with the real KeyGen goroutines step by step (VerifPark hook): "
     "after the context ended the next wake-up returns, a returned call is absorbing, and no event sequence whose messages are attributed to other members reaches a panic (run_no_panic_members); outsider_key_panics shows that hypothesis is needed and is what C03 outsiders_inert provides",
+    "Props/C11Wake.lean: the gap between a waiter's test of the context and its Cond.Wait, at lock granularity: with the monitor's Signal under the lock no schedule loses the wake-up (locked_signal_never_lost), without it one does (unlocked_signal_lost_witness); "
+    "tied by the pinned statements of monitorContextTimeout (lock; Signal; unlock) and by the cancel-at-park runs of dkgstep, which end the context inside that gap on the real code",
     "extractor 'blocking': census of select / channel / Wait constructs in the functions of a KeyGen/Sign call with their escape, regenerated from the Go AST",
 ]
 ASSUME = [
@@ -17,7 +19,7 @@ ASSUME = [
 
 def main():
     c = Check("C11")
-    c.prove(gen=["blocking", "stmts"], modules=["TSSVerif.Props.C11", "TSSVerif.Props.C11Dkg"])
+    c.prove(gen=["blocking", "stmts"], modules=["TSSVerif.Props.C11", "TSSVerif.Props.C11Dkg", "TSSVerif.Props.C11Wake"])
     c.correspond("faults")
     c.correspond("dkgstep")
     c.correspond("orch")
